@@ -108,6 +108,7 @@ fn fragments(bytes: &[u8], cuts: &[usize]) -> Vec<Vec<u8>> {
 }
 
 fn segment(proto: u16, ts: u32, payload: &[u8]) -> Vec<u8> {
+    assert!(payload.len() <= 65535, "harness: segment payload above the 16-bit length field");
     let mut v = Vec::with_capacity(8 + payload.len());
     v.extend(ts.to_be_bytes());
     v.extend(proto.to_be_bytes());
@@ -223,9 +224,9 @@ impl Scenario for Wire1 {
                 let sent = encs.last().unwrap();
                 if sent.len() > 1 && cx.ch.chance("sentinel.split", 1, 2) {
                     fr.push_back(sent[..1].to_vec());
-                    fr.push_back(sent[1..].to_vec());
+                    fr.extend(sent[1..].chunks(65535).map(|c| c.to_vec()));
                 } else {
-                    fr.push_back(sent.clone());
+                    fr.extend(sent.chunks(65535).map(|c| c.to_vec()));
                 }
                 per.push((WIRE_ID[*p], fr));
             }
@@ -268,7 +269,7 @@ impl Scenario for Wire1 {
                                 pause(&sh2, "send.pause", 1, 4).await;
                             }
                             // keep the channel alive until the receivers are done
-                            tokio::time::sleep(std::time::Duration::from_secs(30)).await;
+                            std::future::pending::<()>().await; // the writing end stays open until the run ends (the task is aborted then)
                             drop(b);
                             Ok::<(), Violation>(())
                         },
@@ -287,7 +288,7 @@ impl Scenario for Wire1 {
                         w.write_all(&seg).await.map_err(|e| Violation::new("wire", "raw-write-failed", e.to_string()))?;
                         pause(&sh2, "send.pause", 1, 4).await;
                     }
-                    tokio::time::sleep(std::time::Duration::from_secs(30)).await;
+                    std::future::pending::<()>().await; // the writing end stays open until the run ends (the task is aborted then)
                     drop(w);
                     Ok::<(), Violation>(())
                 }));
@@ -304,7 +305,23 @@ impl Scenario for Wire1 {
                 rhandles.push(tokio::spawn(chaos_auto(
                     async move {
                         for (j, w) in want.iter().enumerate() {
-                            let got = recv1(p, &mut b).await.map_err(|e| {
+                            // the caller may give up waiting (a time-out, a select! branch) and ask again: a
+                            // pending recv_full_msg is dropped at a seeded moment - possibly between two
+                            // segments of one message - and called anew
+                            let got = loop {
+                                let tmo = if chance(&sh2, "recv.cancel", 1, 3) { Some(1 + draw(&sh2, "recv.cancel.us", 8_000)) } else { None };
+                                match tmo {
+                                    Some(us) => match tokio::time::timeout(std::time::Duration::from_micros(us), recv1(p, &mut b)).await {
+                                        Ok(r) => break r,
+                                        Err(_) => {
+                                            inc(&sh2, "fault.recv_future_cancelled");
+                                            continue;
+                                        }
+                                    },
+                                    None => break recv1(p, &mut b).await,
+                                }
+                            }
+                            .map_err(|e| {
                                 Violation::new("wire", format!("{}:recv-error", NAMES1[p]), format!("{}: message #{j} of {}: recv_full_msg failed: {e}", NAMES1[p], want.len()))
                             })?;
                             if &got.render() != w {
@@ -446,7 +463,7 @@ impl Scenario for Wire2 {
                 let cs = cuts(&mut cx.ch, body.len(), &bounds);
                 cx.st.add("probe.cut_points", cs.len() as u64);
                 let mut fr: std::collections::VecDeque<Vec<u8>> = fragments(&body, &cs).into_iter().filter(|f| !f.is_empty()).collect();
-                fr.push_back(encs.last().unwrap().clone());
+                fr.extend(encs.last().unwrap().chunks(65535).map(|c| c.to_vec()));
                 per.push((a2::SPECS_CHANNEL[*p] | server_bit, fr));
             }
             while per.iter().any(|x| !x.1.is_empty()) {
@@ -502,7 +519,7 @@ impl Scenario for Wire2 {
                             ev(&sh2, "sent", &[n as u64]);
                             pause(&sh2, "send.pause", 1, 4).await;
                         }
-                        tokio::time::sleep(std::time::Duration::from_secs(30)).await;
+                        std::future::pending::<()>().await; // the writing end stays open until the run ends (the task is aborted then)
                         drop(wr);
                         drop(_r_unused);
                         Ok::<(), Violation>(())
@@ -520,7 +537,7 @@ impl Scenario for Wire2 {
                             w.write_all(&segment(*id, i as u32, f)).await.map_err(|e| Violation::new("wire", "raw-write-failed", e.to_string()))?;
                             pause(&sh2, "send.pause", 1, 4).await;
                         }
-                        tokio::time::sleep(std::time::Duration::from_secs(30)).await;
+                        std::future::pending::<()>().await; // the writing end stays open until the run ends (the task is aborted then)
                         drop(w);
                         drop(keep);
                         Ok::<(), Violation>(())
@@ -604,7 +621,7 @@ fn variant_probes(stack1: bool, stack2: bool) -> Vec<&'static str> {
 }
 
 pub fn def_c21() -> CheckDef {
-    let mut required = vec!["probe.cut_points", "probe.interleaved_protocols", "fault.short_read", "fault.stall", "probe.messages_delivered", "fault.kernel_min_rcvbuf", "fault.kernel_min_sndbuf"];
+    let mut required = vec!["probe.cut_points", "probe.interleaved_protocols", "fault.short_read", "fault.stall", "probe.messages_delivered", "fault.kernel_min_rcvbuf", "fault.kernel_min_sndbuf", "fault.recv_future_cancelled"];
     required.extend(variant_probes(true, true));
     CheckDef {
         prop: "C21",
